@@ -9,7 +9,9 @@ the result) is run over the same generated definitions
   * scenario part (c12_scen.py, scenario_oracle): sequences of functions, classes, bare docstrings and argparse
     functions that contain conversions which RAISE part-way (caught, the driver goes on), lines with several default
     announcements, empty / blank / stub docstrings, prose that uses another docstring dialect's section markers,
-    families of definitions whose defaults are equal across types (1 / 1.0 / True / '1'), repeated points, and LIVE
+    families of definitions whose defaults are equal across types (1 / 1.0 / True / '1'), repeated points, argparse
+    functions whose arguments carry `choices=` collections (tuple / list / set display, some listing a member more than
+    once), `action='append'` or are added twice, and LIVE
     objects (kinds live / live-init: a generated module is written to disk and imported, the function / class object
     itself goes to parse.function / parse.class_, several per process, signatures annotated with typing generics); every
     point of every run (seed sweep in natural
@@ -609,7 +611,8 @@ def oracle(rng, tier):
                 "byte for byte; non-trivial = distinct definition with >= 2 strata tags.  Scenario part (c12_scen): "
                 "sequences of functions, classes, bare docstrings and argparse functions with failing conversions, "
                 "several default announcements per line, empty docstrings, prose using another dialect's section "
-                "markers, families of defaults equal across types (1, 1.0, True, '1'), repeats and live imported objects "
+                "markers, families of defaults equal across types (1, 1.0, True, '1'), argparse arguments with choices= "
+                "collections (tuple / list / set display, members listed more than once), repeats and live imported objects "
                 "(function / class objects of generated modules with typing-generic annotations, the inspect.signature "
                 "path); every point of every run (seed "
                 "sweep, reversed, doubled and shuffled orders) is compared with the same point converted alone in a "
